@@ -330,3 +330,126 @@ Proof.
     destruct (enc_loop v (fin_of st buf) [] 1 (left - 1) (b :: rest)) as [[[[f o] c] l] r].
     cbn [length]. lia.
 Qed.
+
+(* ---------- TERMINATION of the mpt_array_push loop ---------- *)
+(* with two bytes of room behind the open block the encoders accept *)
+Lemma enc_data_room v st buf cap src : src <> [] -> edone st + escr st + 2 <= cap ->
+  exists k st' buf', enc_call v st buf cap (Some src) = (EInt k, st', buf').
+Proof.
+  intros Hne Hr. cbn [enc_call]. unfold enc_regular.
+  destruct (Nat.ltb_spec cap (edone st)); [lia|]. destruct (Nat.ltb_spec (cap - edone st) (escr st)); [lia|]. cbn [orb].
+  destruct src as [|b rest]; [contradiction|]. cbn [length Nat.eqb].
+  destruct (Nat.eqb_spec (escr st) 0) as [Hz|Hz]; cbn [negb].
+  - destruct (Nat.leb_spec (cap - edone st) 1); [lia|].
+    destruct (enc_loop v (fin_of st buf) [] 1 (cap - edone st - 1) (b :: rest)) as [[[[f o] c] l] r]. eauto.
+  - destruct (Nat.eqb_spec (cap - edone st - escr st) 0); [lia|].
+    destruct (Nat.ltb_spec (cap - edone st - escr st) 2); [lia|]. cbn [andb].
+    destruct (enc_loop v (fin_of st buf) (open_of st buf) (escr st) (cap - edone st - escr st) (b :: rest)) as [[[[f o] c] l] r]. eauto.
+Qed.
+
+Lemma enc_term_room v st buf cap : edone st + escr st + 2 <= cap ->
+  exists k st' buf', enc_call v st buf cap None = (EInt k, st', buf').
+Proof.
+  intros Hr. cbn [enc_call].
+  destruct (inl v && negb (escr st =? 0)).
+  - unfold enc_r_term. destruct (Nat.ltb_spec cap (edone st)); [lia|].
+    destruct (Nat.ltb_spec cap (edone st + escr st)); [lia|].
+    destruct ((1 <? escr st) && check_inline v (escr st) (last (open_of st buf) 0%N)); [eauto|].
+    destruct (Nat.leb_spec (cap - edone st) (escr st)); [lia|eauto].
+  - unfold enc_regular. destruct (Nat.ltb_spec cap (edone st)); [lia|].
+    destruct (Nat.ltb_spec (cap - edone st) (escr st)); [lia|]. cbn [orb].
+    destruct (Nat.leb_spec (cap - edone st) (escr st)); [lia|].
+    destruct (escr st =? 0); [|eauto]. destruct (Nat.ltb_spec (cap - edone st) 2); [lia|eauto].
+Qed.
+
+Definition roomy (st : estate) (cap : nat) : nat := if edone st + escr st + 2 <=? cap then 0 else 1.
+
+(* every round consumes at least one byte or enlarges the buffer, and an enlarged buffer has
+   room: at most two rounds per byte *)
+Lemma apush_loop_data_total v pre l : variant_ok v -> 3 <= maxlen v -> forall fuel st buf cap off c0,
+  off < length l -> enc_inv v pre (c0 ++ firstn off l) st buf -> edone st + escr st <= cap ->
+  2 * (length l - off) + roomy st cap <= fuel ->
+  fst (fst (fst (apush_loop fuel (enc_call v) st buf cap (Some l) off))) <> EFault.
+Proof.
+  intros Hv Hm3. induction fuel as [|fuel IH]; intros st buf cap off c0 Hoff Hinv Hcap Hfuel; [lia|].
+  cbn [apush_loop].
+  assert (Hne : skipn off l <> []).
+  { intros E. apply (f_equal (@length _)) in E. rewrite skipn_length in E. cbn [length] in E. lia. }
+  pose proof (enc_data_call v pre (c0 ++ firstn off l) st buf cap (skipn off l) Hv Hinv) as Hd.
+  pose proof (enc_data_progress v st buf cap (skipn off l) Hm3 Hne) as Hp.
+  pose proof (enc_data_room v st buf cap (skipn off l) Hne) as Hroom.
+  destruct (enc_call v st buf cap (Some (skipn off l))) as [[r st'] buf'].
+  destruct r as [k|e|]; [| |contradiction].
+  - destruct Hd as (Hk & Hinv' & Hcap'). rewrite skipn_length in Hk.
+    destruct (Nat.ltb_spec cap (edone st' + escr st')); [cbn; discriminate|].
+    destruct (Nat.ltb_spec (length l - off) k); [cbn; discriminate|].
+    destruct (Nat.eqb_spec (length l - off - k) 0); [cbn; discriminate|].
+    assert (Hcons : (c0 ++ firstn off l) ++ firstn k (skipn off l) = c0 ++ firstn (off + k) l).
+    { rewrite <- app_assoc. f_equal. clear. revert l. induction off as [|off IH]; intros l; [reflexivity|].
+      destruct l as [|x l]; [cbn; rewrite firstn_nil; reflexivity|]. cbn [firstn skipn app Nat.add]. f_equal. apply IH. }
+    rewrite Hcons in Hinv'.
+    apply (IH st' buf' cap (off + k) c0); [lia|assumption|assumption|].
+    unfold roomy in *. destruct (edone st' + escr st' + 2 <=? cap); lia.
+  - destruct Hd as [-> ->].
+    destruct (Nat.ltb_spec cap (edone st + escr st)); [cbn; discriminate|].
+    destruct e; try (cbn; destruct (off =? 0); discriminate).
+    (* MissingBuffer: only without room; the enlarged buffer has room *)
+    destruct (abuf_detach_ge cap (cap + 64)) as [Hg1 Hg2].
+    assert (Hnr : roomy st cap = 1).
+    { unfold roomy. destruct (Nat.leb_spec (edone st + escr st + 2) cap) as [Hr|]; [|reflexivity].
+      destruct (Hroom Hr) as (k & s2 & b2 & E). discriminate. }
+    apply (IH st buf (abuf_detach cap (cap + 64)) off c0); [assumption|assumption|lia|].
+    unfold roomy. destruct (Nat.leb_spec (edone st + escr st + 2) (abuf_detach cap (cap + 64))); lia.
+Qed.
+
+Lemma apush_loop_term_total v pre : variant_ok v -> forall fuel st buf cap consumed,
+  enc_inv v pre consumed st buf -> edone st + escr st <= cap -> 1 + roomy st cap <= fuel ->
+  fst (fst (fst (apush_loop fuel (enc_call v) st buf cap None 0))) <> EFault.
+Proof.
+  intros Hv. induction fuel as [|fuel IH]; intros st buf cap consumed Hinv Hcap Hfuel; [lia|].
+  cbn [apush_loop].
+  pose proof (enc_term_call v pre consumed st buf cap Hv Hinv Hcap) as Hd.
+  pose proof (enc_term_room v st buf cap) as Hroom.
+  destruct (enc_call v st buf cap None) as [[r st'] buf'].
+  destruct r as [k|e|]; [| |contradiction].
+  - destruct (cap <? edone st' + escr st'); cbn; discriminate.
+  - destruct Hd as [-> ->].
+    destruct (Nat.ltb_spec cap (edone st + escr st)); [cbn; discriminate|].
+    destruct e; try (cbn; discriminate).
+    destruct (abuf_detach_ge cap (cap + 64)) as [Hg1 Hg2].
+    assert (Hnr : roomy st cap = 1).
+    { unfold roomy. destruct (Nat.leb_spec (edone st + escr st + 2) cap) as [Hr|]; [|reflexivity].
+      destruct (Hroom Hr) as (k & s2 & b2 & E). discriminate. }
+    apply (IH st buf (abuf_detach cap (cap + 64)) consumed); [assumption|lia|].
+    unfold roomy. destruct (Nat.leb_spec (edone st + escr st + 2) (abuf_detach cap (cap + 64))); lia.
+Qed.
+
+(* mpt_array_push terminates: the loop never runs out of the rounds the model gives it
+   (4 * len + 64), for data of any length and for the terminating call *)
+Theorem apush_total v pre c0 st buf cap d : variant_ok v -> 3 <= maxlen v ->
+  enc_inv v pre c0 st buf -> arr_ok st cap ->
+  fst (fst (fst (apush (enc_call v) st buf cap d))) <> EFault.
+Proof.
+  intros Hv Hm3 Hinv Hok. unfold apush.
+  pose proof (enc_inv_len v pre c0 st buf Hinv) as Hlen.
+  set (d' := match d with Some [] => None | x => x end).
+  set (len := match d' with Some l => length l | None => 0 end).
+  set (mx := edone st + escr st) in *.
+  destruct ((cap =? 0) && negb (mx =? 0)); [cbn; discriminate|].
+  set (cap1 := if cap =? 0 then abuf_size (Nat.max len 64) else abuf_detach cap (mx + Nat.max len 64)).
+  destruct (Nat.ltb_spec (length buf) mx); [cbn; discriminate|].
+  assert (Hcap1 : mx <= cap1).
+  { unfold cap1. destruct (Nat.eqb_spec cap 0).
+    - destruct Hok as [Hok|[_ Hok]]; [fold mx in Hok; lia|fold mx in Hok; lia].
+    - destruct (abuf_detach_ge cap (mx + Nat.max len 64)). lia. }
+  assert (Hr : roomy st cap1 <= 1) by (unfold roomy; destruct (edone st + escr st + 2 <=? cap1); lia).
+  destruct d' as [l|] eqn:Ed.
+  - assert (Hl : l <> []).
+    { unfold d' in Ed. destruct d as [[|x t]|]; inversion Ed; discriminate. }
+    apply (apush_loop_data_total v pre l Hv Hm3 (4 * len + 64) st buf cap1 0 c0).
+    + destruct l; [contradiction|cbn [length]; lia].
+    + cbn [firstn]. rewrite app_nil_r. exact Hinv.
+    + exact Hcap1.
+    + unfold len. lia.
+  - apply (apush_loop_term_total v pre Hv (4 * len + 64) st buf cap1 c0 Hinv Hcap1). lia.
+Qed.
